@@ -1,6 +1,8 @@
 package main
 
 import (
+	"os/exec"
+	"archive/zip"
 	"github.com/polydawn/rio/fs"
 	"github.com/polydawn/rio/fs/osfs"
 	"github.com/polydawn/rio/stitch"
@@ -603,7 +605,96 @@ func readersNoTmp(c *Ctx, op string) {
 	c.Distinct(op)
 }
 
+// formatCorners: corners of the two formats that foreign writers reach and rio's own writer does not.
+// (1) old-GNU sparse entries (tar -S): the same fileset as a plain GNU tar scans to the same id;
+// (2) a zip whose only owner record is the unix2 (0x7855) field scans like the same zip with the unix3 field;
+// (3) zip pack of mtimes the format cannot hold (before 1970, after 2106): an error, or a ware that scans to the id given.
+func formatCorners(c *Ctx) {
+	op := "rt-format-corners"
+	caseCounter++
+	base := filepath.Join(c.Work, fmt.Sprintf("fc%d", caseCounter))
+	defer rmrf(base)
+	ctx := context.Background()
+	uf := api.MustParseFilesetUnpackFilter(losslessUnpackStr)
+	scan := func(fm, file string) string {
+		fn := funcsFor(fm)
+		id, err, pan := safeCall(func() (api.WareID, error) {
+			return fn.scan(ctx, api.PackType(fm), uf, rio.Placement_Direct, api.WarehouseLocation("file://"+file), rio.Monitor{})
+		})
+		return resTok(id, err, pan)
+	}
+	c.EmitR(op, "skip", "skip")
+	// (1)
+	d := filepath.Join(base, "sp")
+	os.MkdirAll(d, 0755)
+	os.WriteFile(filepath.Join(d, "small"), []byte("x"), 0644)
+	if f, e := os.Create(filepath.Join(d, "sparse.bin")); e == nil {
+		f.Truncate(1 << 20)
+		f.WriteAt([]byte("tail"), 1<<20)
+		f.Close()
+	}
+	for _, p := range []string{"small", "sparse.bin", "."} {
+		os.Chtimes(filepath.Join(d, p), time.Unix(1e9, 0), time.Unix(1e9, 0))
+	}
+	sparse, plain := filepath.Join(base, "sparse.tar"), filepath.Join(base, "plain.tar")
+	e1 := exec.Command("tar", "--format=gnu", "-S", "-C", d, "-cf", sparse, ".").Run()
+	e2 := exec.Command("tar", "--format=gnu", "-C", d, "-cf", plain, ".").Run()
+	if e1 == nil && e2 == nil {
+		a, b := scan("tar", sparse), scan("tar", plain)
+		c.H("corner:gnu-sparse:" + strings.Fields(a)[0])
+		if strings.HasPrefix(b, "ok ") && a != b {
+			c.PropFail("valid-archive-refused", fmt.Sprintf("a GNU tar written with -S (old-GNU sparse entry) scans to %s; the same fileset written without -S scans to %s", a, b), op)
+			c.PropFail("roundtrip-id", fmt.Sprintf("a GNU tar written with -S scans to %s, without -S to %s", a, b), op)
+		}
+	}
+	// (2)
+	mkzip := func(path string, extra []byte) {
+		var buf bytes.Buffer
+		zw := zip.NewWriter(&buf)
+		fh := &zip.FileHeader{Name: "a.txt", Method: zip.Deflate, Modified: time.Unix(1e9, 0).UTC(), Extra: extra}
+		fh.SetMode(0644)
+		w, _ := zw.CreateHeader(fh)
+		w.Write([]byte("hello"))
+		zw.Close()
+		os.WriteFile(path, buf.Bytes(), 0644)
+	}
+	u2, u3 := filepath.Join(base, "ux2.zip"), filepath.Join(base, "ux3.zip")
+	mkzip(u2, []byte{0x55, 0x78, 4, 0, 7, 0, 8, 0})
+	mkzip(u3, []byte{0x75, 0x78, 11, 0, 1, 4, 7, 0, 0, 0, 4, 8, 0, 0, 0})
+	a, b := scan("zip", u2), scan("zip", u3)
+	c.H("corner:zip-unix2:" + strings.Fields(a)[0])
+	if strings.HasPrefix(b, "ok ") && a != b {
+		c.PropFail("valid-archive-refused", fmt.Sprintf("a zip whose only owner record is the unix2 field (uid 7, gid 8) scans to %s; with the unix3 field for the same owner it scans to %s", a, b), op)
+		c.PropFail("roundtrip-id", fmt.Sprintf("unix2-only zip scans to %s, unix3 zip of the same entry to %s", a, b), op)
+	}
+	// (3)
+	for _, when := range []int64{-152668433, 4423000000, -1, 4294967296, 4294967295, 0} {
+		src := filepath.Join(base, fmt.Sprintf("zt%d", when))
+		os.MkdirAll(src, 0755)
+		os.WriteFile(filepath.Join(src, "f"), []byte("f"), 0644)
+		os.Chtimes(filepath.Join(src, "f"), time.Unix(when, 0), time.Unix(when, 0))
+		os.Chtimes(src, time.Unix(1e9, 0), time.Unix(1e9, 0))
+		wh := filepath.Join(base, fmt.Sprintf("zwh%d", when))
+		os.MkdirAll(wh, 0755)
+		fn := funcsFor("zip")
+		id, err, pan := safeCall(func() (api.WareID, error) {
+			return fn.pack(ctx, "zip", src, api.MustParseFilesetPackFilter(losslessPackStr), whAddr("file", wh), rio.Monitor{})
+		})
+		r := resTok(id, err, pan)
+		c.H("corner:zip-mtime:" + strings.Fields(r)[0])
+		if pan != "" {
+			c.PropFail("panic-pack", "zip pack of an mtime the format cannot hold panicked: "+pan, op)
+		} else if err == nil {
+			if back := scan("zip", storedWarePath("file", wh, id)); back != r {
+				c.PropFail("roundtrip-id", fmt.Sprintf("zip pack of a file with mtime %d answered %s; a scan of the ware it wrote answers %s", when, r, back), op)
+			}
+		}
+	}
+	c.Distinct(op)
+}
+
 func rtEngineRest(c *Ctx) {
+	formatCorners(c)
 	packMultiUntouched(c, "tar")
 	packMultiUntouched(c, "zip")
 	for _, fm := range []string{"zip", "tar"} {
@@ -651,12 +742,24 @@ func rtEngineRest(c *Ctx) {
 		sp := Fileset{{Name: "", Kind: 'd', Perms: 0755, Uid: 3, Gid: 4, Sec: 1e9}, f("data-then-0s", cat(rnd(4096), z(4096))), f("all-zero-8k", z(8192)), f("all-zero-4k", z(4096)),
 			f("zero-4097", z(4097)), f("hole-in-middle", cat(rnd(4096), z(8192), rnd(100))), f("zero-1m", z(1<<20)), f("tail-64k", cat(rnd(10), z(65536-10))), f("one-zero", z(1)),
 			// link targets up to the kernel's limit (PATH_MAX - 1)
+			// mtimes beyond what a count of nanoseconds in 64 bits can say (files, directories and links)
+			{Name: "y2400", Kind: 'f', Perms: 0644, Uid: 3, Gid: 4, Sec: 13569465600, Content: []byte("late")},
+			{Name: "y2400d", Kind: 'd', Perms: 0755, Uid: 3, Gid: 4, Sec: 13569465601},
+			{Name: "y2400l", Kind: 'L', Perms: 0777, Uid: 3, Gid: 4, Sec: 13569465602, Link: "y2400"},
 			{Name: "ln-255", Kind: 'L', Perms: 0777, Uid: 3, Gid: 4, Sec: 1e9, Link: strings.Repeat("a", 255)},
 			{Name: "ln-1025", Kind: 'L', Perms: 0777, Uid: 3, Gid: 4, Sec: 1e9, Link: strings.Repeat("b/", 512) + "c"},
 			{Name: "ln-4095", Kind: 'L', Perms: 0777, Uid: 3, Gid: 4, Sec: 1e9, Link: "/" + strings.Repeat("d", 4094)}}
 		for _, fm := range []string{"tar", "zip"} {
 			for _, m := range []string{"direct", "copy"} {
-				rtExec(c, fmt.Sprintf("rt %s ca %s %s", fm, m, filesetTok(sp)))
+				spf := sp.clone()
+				if fm == "zip" { // (the zip format holds mtimes up to 2106 only; beyond that pack refuses: formatCorners)
+					for i := range spf {
+						if spf[i].Sec > 4294967295 {
+							spf[i].Sec = 4294967295 - int64(i)
+						}
+					}
+				}
+				rtExec(c, fmt.Sprintf("rt %s ca %s %s", fm, m, filesetTok(spf)))
 			}
 		}
 	}
